@@ -93,6 +93,8 @@ type Interp struct {
 	pcCount int
 	extra     map[string]interface{}
 	syncHook  func(op string, mu value)
+	errStack  []string
+	errWhere  string
 }
 
 // ---------- solver plumbing ----------
@@ -626,6 +628,10 @@ func (in *Interp) callSSA(caller *frame, pos token.Pos, fn *ssa.Function, args [
 					}()
 				}
 				in.curFrame = fr
+				if in.errStack == nil {
+					in.errStack = in.stack()
+					in.errWhere = fr.fn.String()
+				}
 				panic(r)
 			}
 		}
@@ -793,6 +799,12 @@ func (in *Interp) visit(fr *frame, instr ssa.Instruction) bool {
 		switch x := x.(type) {
 		case *Slice:
 			if x.Ghost != nil {
+				if fb, ok := ghostFirstByte(x.Ghost); ok && idx.Const && idx.Int() == 0 {
+					slot := new(value)
+					*slot = fb
+					fr.env[instr] = slot
+					break
+				}
 				panic(engineErr("index into ghost byte slice %s", x.Ghost.Key()))
 			}
 			i := in.indexCheck(idx, len(x.Data))
@@ -1218,7 +1230,7 @@ func (in *Interp) conv(dst, src types.Type, x value) value {
 			if _, _, ok := intInfo(us); ok {
 				t := x.(*Term)
 				if !t.Const {
-					panic(engineErr("string(symbolic int)"))
+					return &Str{Kind: sBytes, B: in.encodeRune(toW(t, 32, false))}
 				}
 				return lit(string(rune(t.Int())))
 			}
@@ -1425,7 +1437,8 @@ func (in *Interp) sliceOp(instr *ssa.Slice, x, lo, hi, max value) value {
 		return &Str{Kind: sBytes, B: b[l:h]}
 	case *Slice:
 		if x.Ghost != nil {
-			if lo == nil && hi == nil {
+			loZero := lo == nil || (lo.(*Term).Const && lo.(*Term).Int() == 0)
+			if loZero && hi == nil {
 				return x
 			}
 			panic(engineErr("slicing ghost byte slice %s", x.Ghost.Key()))
@@ -1793,6 +1806,11 @@ func (in *Interp) callBuiltin(caller *frame, fn *ssa.Builtin, args []value) valu
 	case "delete":
 		in.mapDelete(args[0].(*MapV), args[1])
 		return nil
+	case "ssa:wrapnilchk":
+		if p, ok := args[0].(*value); ok && p == nil {
+			panic(targetPanic{Msg: "value method called using nil pointer"})
+		}
+		return args[0]
 	case "print", "println":
 		return nil
 	case "recover":
